@@ -45,6 +45,7 @@ type Prog struct {
 	Ops      []Op  `json:"ops"`
 	Sync     []int `json:"sync,omitempty"`   // choices for the final complete exchange (empty: no exchange)
 	Clocks   []int `json:"clocks,omitempty"` // initial clock time per replica (LogOptions.Clock)
+	Conc     []int `json:"conc,omitempty"`   // LogOptions.Concurrency per replica (0 = default)
 }
 
 // toggleAC is a permissive access controller that can be told to deny everything (for "appenddenied").
@@ -134,6 +135,9 @@ func Gen(t *rapid.T, cfg GenConfig) Prog {
 	for i := 0; i < n; i++ {
 		p.Clocks = append(p.Clocks, rapid.SampledFrom([]int{0, 0, 0, 0, 3, 1000, 1 << 40}).Draw(t, "clock0"))
 	}
+	for i := 0; i < n; i++ {
+		p.Conc = append(p.Conc, rapid.SampledFrom([]int{0, 0, 1, 2, 3, 5}).Draw(t, "conc"))
+	}
 	p.Order = rapid.SampledFrom(cfg.Orders).Draw(t, "order")
 	p.Codec = rapid.SampledFrom(cfg.Codecs).Draw(t, "codec")
 	kinds := []string{"append", "append", "append", "append", "append", "append", "join", "join", "join", "join", "selfjoin", "joinempty", "joinother"}
@@ -199,6 +203,9 @@ func New(tb ev.TB, p *Prog) *World {
 		}
 		ac := &toggleAC{}
 		lo := &ipfslog.LogOptions{AccessController: ac}
+		if i < len(p.Conc) && p.Conc[i] > 0 {
+			lo.Concurrency = uint(p.Conc[i])
+		}
 		if i < len(p.Clocks) && p.Clocks[i] > 0 {
 			lo.Clock = entry.NewLamportClock(world.Identity(wr).PublicKey, p.Clocks[i])
 		}
